@@ -485,6 +485,9 @@ pub fn group_ops(ops: &[WOp]) -> Result<Vec<WNodeDelta>, String> {
                 let Some(cur) = out.last_mut() else {
                     return Err("set-max before member".into());
                 };
+                if *v < cur.max_version {
+                    return Err("explicit max version below a preceding key-value".into());
+                }
                 cur.max_version = *v;
             }
         }
